@@ -205,7 +205,9 @@ func (pd *perBitData) parseBitString(extensed bool, lowerBoundPtr *int64, upperB
 		}
 	}
 	if ub > 65535 {
+		// X.691 10.9.3.5: the general length determinant carries the count itself
 		sizeRange = -1
+		lb = 0
 	}
 	// initailization
 	bitString := BitString{[]byte{}, 0}
@@ -295,7 +297,9 @@ func (pd *perBitData) parseOctetString(extensed bool, lowerBoundPtr *int64, uppe
 		}
 	}
 	if ub > 65535 {
+		// X.691 10.9.3.5: the general length determinant carries the count itself
 		sizeRange = -1
+		lb = 0
 	}
 	// initailization
 	octetString := OctetString("")
